@@ -52,7 +52,7 @@ CfgOf(c) == [name |-> c.name, nlevels |-> c.nlevels,
              levels |-> [i \in DOMAIN c.levels |->
                             [eng |-> c.levels[i].eng, pop |-> c.levels[i].pop, gens |-> c.levels[i].gens,
                              lsc |-> c.levels[i].lsc, lscn |-> c.levels[i].lscn, elite |-> c.levels[i].elite,
-                             variant |-> c.levels[i].variant]],
+                             variant |-> c.levels[i].variant, cls |-> c.levels[i].cls]],
              limit |-> c.limit, hib |-> c.hib, gsc |-> c.gsc, gscn |-> c.gscn, gscw |-> c.gscw,
              max |-> c.max, sprout |-> c.sprout, generator |-> c.generator, haslocal |-> c.haslocal, cutoff |-> c.cutoff,
              idlecheck |-> c.idlecheck]
@@ -138,7 +138,10 @@ Compare(s, sn) ==
    \cup (IF Ids(s) \ ids # {} THEN {"C07_DemeVanished"} ELSE {})
    \cup (IF Len(sn.demes) # Cardinality(ids) THEN {"C07_UniqueIds"} ELSE {})
    \cup (IF sn.mc # s.mc THEN {"C05_CounterEqualsPerformed"} ELSE {})
-   \cup (IF \E d \in common : (SnapRec(sn, d).act = 1) # s.D[d].active THEN {"C06_StopCauses"} ELSE {})
+   \cup (IF \E d \in common : SnapRec(sn, d).act = 0 /\ s.D[d].active THEN {"C06_StopCauses"} ELSE {})
+   \cup (IF \E d \in common : SnapRec(sn, d).act = 1 /\ ~s.D[d].active
+         THEN {IF \E d \in common : SnapRec(sn, d).act = 1 /\ ~s.D[d].active /\ s.D[d].why = "-"
+               THEN "C06_StopCauses" ELSE "C06_InactiveFrozen"} ELSE {})
    \cup (IF \E d \in common : (SnapRec(sn, d).hib = 1) # s.D[d].hib
          THEN {IF HibOn(s) THEN "C18_HibIffNoSproutInLastRound" ELSE "C18_OffMeansNever"} ELSE {})
    \cup (IF counted /\ \E d \in common : SnapRec(sn, d).ev # s.D[d].evals THEN {"C03_DemeCountEqualsCalls"} ELSE {})
@@ -183,7 +186,8 @@ SnapClauses(s, sn) ==
          THEN {"C03_LevelEqualsCalls"} ELSE {})
    \cup (IF \E i \in DOMAIN sn.demes : sn.demes[i].lvl # sn.demes[i].lix THEN {"C07_Structure"} ELSE {})
    \cup (IF \E i \in DOMAIN sn.demes :
-              EngOfCls(sn.demes[i].cls) # s.cfg.levels[sn.demes[i].lix + 1].eng THEN {"C07_EnginePerLevel"} ELSE {})
+              sn.demes[i].lix + 1 \in DOMAIN s.cfg.levels /\ sn.demes[i].cls # s.cfg.levels[sn.demes[i].lix + 1].cls
+         THEN {"C07_EnginePerLevel"} ELSE {})
    \cup (IF \E i \in DOMAIN sn.demes : sn.demes[i].par = "MANY" THEN {"C07_SingleParent"} ELSE {})
    \cup (IF \E i \in DOMAIN sn.demes : sn.demes[i].id # RootId /\ sn.demes[i].par = "" THEN {"C07_ParentListsChild"} ELSE {})
    \cup (IF Len(sn.levels) # s.cfg.nlevels THEN {"C07_Height"} ELSE {})
